@@ -40,7 +40,7 @@ Section Sound.
   Variable key_eqb : list value -> list value -> bool.
   Variable distinct_sel : list row -> list nat.
   Variable ost_sel : list (list value) -> list Z -> option value -> list nat.
-  Variable tvf_sem : name -> list (name * value) -> list (name * name) -> list row.
+  Variable tvf_sem : name -> list (name * value) -> list (name * name) -> option (schema * list row) -> list row.
 
   Notation eval := (eval fn_sem assert_sem cast_sem other_sem).
   Notation evals := (evals fn_sem assert_sem cast_sem other_sem).
@@ -125,6 +125,11 @@ Section Sound.
       + rewrite G2, Hs, G1. reflexivity.
       + intros env. unfold fields_of. rewrite G3, G2. reflexivity.
     - eapply fin_sound; [exact Hf | apply good_refl; exact Hs | exact H].
+    - destruct (tr_node f p) as [[q cq]| |] eqn:E; simpl in H; try discriminate.
+      simpl in Hs. destruct (IHp q cq Hs eq_refl) as [G1 [G2 G3]].
+      eapply fin_sound; [exact Hf | | exact H]. repeat split; simpl.
+      + exact G1.
+      + intros env. rewrite G3, G2. reflexivity.
   Qed.
 
   Lemma run_nt_sound f : nt_sound f -> forall p p' c, shapeb p = true -> run_nt f p = Ok (p', c) -> good p p'.
@@ -566,7 +571,7 @@ Definition w_den (km_pinned : bool) (tables : list value) (p : plan) : list row 
   (if km_pinned then den_plan_pinned else den_plan)
     (w_db tables) (fun _ _ => VNull) (fun _ v => v) (fun _ v => v) (fun _ _ _ => VNull) (fun _ _ => VNull)
     (fun a b => list_eqb value_eqb a b) (fun rows => seq 0 (length rows)) (fun ks _ _ => seq 0 (length ks))
-    (fun _ _ _ => []) p [].
+    (fun _ _ _ _ => []) p [].
 Lemma pinned_unnest_field_pruned :
   wf_plan w_unnest /\
   exists p', apply_rule pinned_cfg "RemoveUnusedMapFields" w_unnest = Ok (p', true) /\
